@@ -1084,14 +1084,19 @@ class _LoopBreak(Exception):
     pass
 
 
+class _LoopContinue(Exception):
+    pass
+
+
 class MiniInt:
     """Concrete evaluation of small integer/boolean code for case tables: literals, locals, parameters, arithmetic,
     bitwise, relational and logical operators, ?:, assignments and compound assignments, declarations, if/else, return,
     and calls - first offered to atom(text, node, env) (return None to decline), then inlined when the callee body is
     exported.  Nothing of the program under analysis is run; the interpreter walks the AST."""
 
-    def __init__(self, F, atom, max_depth=3):
+    def __init__(self, F, atom, max_depth=3, mem=None):
         self.F, self.atom, self.max_depth = F, atom, max_depth
+        self.mem = mem          # mem(address) -> value, for `*p` / `p[i]` over a modelled buffer (pointers are integers)
 
     def expr(self, n, env, depth=0):
         from .facts import AnalysisBroken
@@ -1115,6 +1120,10 @@ class MiniInt:
             r = self.atom(t, n, env)
             if r is not None:
                 return int(r)
+        if k == "UnaryOperator" and n.get("op") == "*" and self.mem is not None:
+            return int(self.mem(self.expr(kids(n)[0], env, depth)))
+        if k == "ArraySubscriptExpr" and self.mem is not None:
+            return int(self.mem(self.expr(kids(n)[0], env, depth) + self.expr(kids(n)[1], env, depth)))
         if k == "UnaryOperator":
             op = n.get("op")
             if op in ("++", "--"):
@@ -1179,6 +1188,7 @@ class MiniInt:
         raise AnalysisBroken("MiniInt: %s has a path without a return" % g.name)
 
     def run(self, stmts, env, depth=0, stop=None):
+        from .facts import AnalysisBroken
         for s in stmts:
             if s is None:
                 continue
@@ -1216,6 +1226,36 @@ class MiniInt:
                         return True
                 except _LoopBreak:
                     pass
+            elif k in ("WhileStmt", "ForStmt", "DoStmt"):
+                ks_ = s.get("c", [])
+                if k == "ForStmt":
+                    ini_, cond_, inc_, body_ = ks_[0], ks_[2], ks_[3], ks_[4] if len(ks_) > 4 else None
+                elif k == "WhileStmt":
+                    ini_, inc_ = None, None
+                    cond_, body_ = kids(s)[0], kids(s)[1] if len(kids(s)) > 1 else None
+                else:
+                    ini_, inc_ = None, None
+                    body_, cond_ = kids(s)[0], kids(s)[1]
+                if ini_ is not None:
+                    self.run([ini_], env, depth)
+                first = (k == "DoStmt")
+                for _it in range(2000):
+                    if not first and cond_ is not None and not self.expr(cond_, env, depth):
+                        break
+                    first = False
+                    try:
+                        if body_ is not None and self.run([body_], env, depth, stop):
+                            return True
+                    except _LoopBreak:
+                        break
+                    except _LoopContinue:
+                        pass
+                    if inc_ is not None:
+                        self.expr(inc_, env, depth)
+                else:
+                    raise AnalysisBroken("MiniInt: loop does not terminate on the modelled input")
+            elif k == "ContinueStmt":
+                raise _LoopContinue()
             elif k == "BreakStmt":
                 raise _LoopBreak()
             elif k == "CXXThrowExpr" or (k == "ExprWithCleanups" and strip(s) is not None and strip(s)["k"] == "CXXThrowExpr"):
